@@ -76,11 +76,11 @@ func (dlEngine) Generate(prop string, r *simrt.RNG, tier string, run int) *simrt
 		// saturation: one peer that holds every request for as long as the node
 		// lets it, except for a few heights it serves; more heights than the peer
 		// may have in flight, so some heights cannot get a slot in the first pass
-		count := r.Range(101, 120)
+		count := r.Range(112, 120)
 		start := int64(r.Range(1, 500))
 		slow := []int{bStallForever, bSlowRefuse, bStall}[r.Intn(3)]
 		sc.Ops = append(sc.Ops, simrt.Op{K: "peer", I: []int64{start + int64(count), 0, int64(slow), 30}})
-		for i, k := 0, r.Range(8, 25); i < k; i++ {
+		for i, k := 0, r.Range(3, 10); i < k; i++ {
 			sc.Ops = append(sc.Ops, simrt.Op{K: "beh", I: []int64{0, int64(r.Intn(count)), bServe, 0, 0}})
 		}
 		sc.Ops = append(sc.Ops, simrt.Op{K: "task", I: []int64{start, int64(count), int64(r.Intn(1 << 16))}})
